@@ -975,10 +975,96 @@ fn mpp_outcome_probe(_a: &mut Vec<i128>) -> String {
 	verdict
 }
 
-/// payment_outcome_battery: scenarios 1-5 of payment_outcome_probe and mpp_outcome_probe. Output: `<scenarios that failed or panicked> <scenarios run>`.
+/// payment_restart_probe: an outbound HTLC times out on-chain after the payer force-closed. The user's event handler
+/// handles the PaymentPathFailed but asks for a replay of the terminal PaymentFailed; the node then restarts from the
+/// ChannelManager persisted BEFORE the events and the latest ChannelMonitor. The terminal event was never handled, so the
+/// restarted node must produce it again and must not keep listing the payment as pending. Output: `1` / `0 <what>`.
+fn payment_restart_probe(_a: &mut Vec<i128>) -> String {
+	use lightning::events::{ClosureReason, Event, EventsProvider, ReplayEvent};
+	use lightning::util::ser::Writeable;
+	const LATENCY_GRACE_PERIOD_BLOCKS: u32 = 3;
+	const BREAKDOWN_TIMEOUT: u16 = 6 * 24;
+	const ANTI_REORG_DELAY: u32 = 6;
+	let chanmon_cfgs = create_chanmon_cfgs(2);
+	let node_cfgs = create_node_cfgs(2, &chanmon_cfgs);
+	let persister;
+	let chain_monitor;
+	let legacy_cfg = test_legacy_channel_config();
+	let node_chanmgrs = create_node_chanmgrs(2, &node_cfgs, &[Some(legacy_cfg.clone()), Some(legacy_cfg)]);
+	let node_a_reload;
+	let mut nodes = create_network(2, &node_cfgs, &node_chanmgrs);
+	let node_a_id = nodes[0].node.get_our_node_id();
+	let node_b_id = nodes[1].node.get_our_node_id();
+	let (_, _, chan_id, funding_tx) = create_announced_chan_between_nodes(&nodes, 0, 1);
+	let message = "Channel force-closed".to_owned();
+	let (_preimage, payment_hash, _, payment_id) = route_payment(&nodes[0], &[&nodes[1]], 10_000_000);
+	nodes[0].node.force_close_broadcasting_latest_txn(&chan_id, &node_b_id, message.clone()).unwrap();
+	check_closed_broadcast(&nodes[0], 1, true);
+	check_added_monitors(&nodes[0], 1);
+	check_closed_event(&nodes[0], 1, ClosureReason::HolderForceClosed { broadcasted_latest_txn: Some(true), message }, &[node_b_id], 100000);
+	nodes[0].node.peer_disconnected(node_b_id);
+	nodes[1].node.peer_disconnected(node_a_id);
+	connect_blocks(&nodes[0], TEST_FINAL_CLTV + LATENCY_GRACE_PERIOD_BLOCKS + 1);
+	let (commitment_tx, htlc_timeout_tx) = {
+		let mut txn = nodes[0].tx_broadcaster.unique_txn_broadcast();
+		if txn.len() != 2 {
+			return format!("error expected commitment + HTLC-timeout, got {} transactions", txn.len());
+		}
+		lightning::check_spends!(txn[0], funding_tx);
+		lightning::check_spends!(txn[1], txn[0]);
+		(txn.remove(0), txn.remove(0))
+	};
+	mine_transaction(&nodes[0], &commitment_tx);
+	connect_blocks(&nodes[0], BREAKDOWN_TIMEOUT as u32 - 1);
+	mine_transaction(&nodes[0], &htlc_timeout_tx);
+	connect_blocks(&nodes[0], ANTI_REORG_DELAY - 1);
+	check_added_monitors(&nodes[0], 0);
+	let node_a_ser = nodes[0].node.encode();
+	let path_failed_handled = core::cell::Cell::new(0);
+	let payment_failed_seen = core::cell::Cell::new(0);
+	let handler = |ev: Event| -> Result<(), ReplayEvent> {
+		match ev {
+			Event::PaymentPathFailed { .. } => { path_failed_handled.set(path_failed_handled.get() + 1); Ok(()) },
+			Event::PaymentFailed { .. } => { payment_failed_seen.set(payment_failed_seen.get() + 1); Err(ReplayEvent()) },
+			_ => Ok(()),
+		}
+	};
+	nodes[0].node.process_pending_events(&handler);
+	let mut verdict = String::from("1");
+	if path_failed_handled.get() != 1 || payment_failed_seen.get() != 1 {
+		verdict = format!("0 before the restart: {} path failures, {} PaymentFailed", path_failed_handled.get(), payment_failed_seen.get());
+	}
+	nodes[0].chain_monitor.added_monitors.lock().unwrap().clear();
+	let mon_ser = lightning::get_monitor!(nodes[0], chan_id).encode();
+	lightning::reload_node!(nodes[0], &node_a_ser, &[&mon_ser], persister, chain_monitor, node_a_reload);
+	let events = nodes[0].node.get_and_clear_pending_events();
+	nodes[0].chain_monitor.added_monitors.lock().unwrap().clear();
+	let got = events.iter().any(|ev| matches!(ev, Event::PaymentFailed { payment_id: id, payment_hash: h, .. } if *id == payment_id && *h == Some(payment_hash)));
+	let n_failed = events.iter().filter(|ev| matches!(ev, Event::PaymentFailed { .. })).count();
+	if verdict == "1" && !got {
+		verdict = String::from("0 no terminal event after the restart although it was never handled");
+	} else if verdict == "1" && n_failed != 1 {
+		verdict = format!("0 {} PaymentFailed events after the restart", n_failed);
+	} else if verdict == "1" && !nodes[0].node.list_recent_payments().is_empty() {
+		verdict = String::from("0 the failed payment is still listed after its terminal event");
+	}
+	for n in nodes.iter() {
+		n.node.get_and_clear_pending_msg_events();
+		n.node.get_and_clear_pending_events();
+		n.chain_monitor.added_monitors.lock().unwrap().clear();
+	}
+	core::mem::forget(nodes);
+	verdict
+}
+
+/// payment_outcome_battery: scenarios 1-5 of payment_outcome_probe, mpp_outcome_probe and payment_restart_probe. Output: `<scenarios that failed or panicked> <scenarios run>`.
 fn payment_outcome_battery(_a: &mut Vec<i128>) -> String {
-	let (mut bad, mut total) = (0u32, 1u32);
+	let (mut bad, mut total) = (0u32, 2u32);
 	match catch_unwind(AssertUnwindSafe(|| mpp_outcome_probe(&mut vec![]))) {
+		Ok(v) if v == "1" => {},
+		_ => bad += 1,
+	}
+	match catch_unwind(AssertUnwindSafe(|| payment_restart_probe(&mut vec![]))) {
 		Ok(v) if v == "1" => {},
 		_ => bad += 1,
 	}
@@ -1100,6 +1186,7 @@ fn main() {
 			"payment_outcome_probe" => payment_outcome_probe(&mut args),
 			"payment_outcome_battery" => payment_outcome_battery(&mut args),
 			"mpp_outcome_probe" => mpp_outcome_probe(&mut args),
+			"payment_restart_probe" => payment_restart_probe(&mut args),
 			"persister_battery" => persister_battery(&mut args),
 			"closing_probe" => closing_probe(&mut args),
 			"prune_probe" => prune_probe(&mut args),
